@@ -186,3 +186,34 @@ def h_zh_time_period(h1: int, m1: int, s1: int, h2: int, m2: int, s2: int):
     assert tot == want_span, ('end minus start differs from the duration', r.timex)
     if eh2 < 24:          # (hour 24 has no datetime: build_date falls back to the min-value date; only the clock time is rendered)
         assert b < e and (e - b).total_seconds() == want_span, ('resolved end minus start differs from the span', r.timex)
+
+
+# ---- Chinese durations through the public API (small-scope enumeration; not a solver verdict) -------------------------------------------------
+def zh_durations_api(slice_, timeout):
+    """N <unit>, N <unit>半 / N个半<unit> and N.5 <unit> for N = 1..30 and the seven units: whenever the model returns one duration entity over the whole text,
+    its TIMEX is P[T]<count><U> and its value is count x the unit's length in seconds (count = N or N + 0.5)"""
+    from recognizers_date_time import recognize_datetime
+    import datetime as _dt
+    units = [('秒', 'S', 1, True), ('分钟', 'M', 60, True), ('小时', 'H', 3600, True), ('天', 'D', 86400, False), ('周', 'W', 604800, False), ('个月', 'M', 2592000, False), ('年', 'Y', 31536000, False)]
+    n_checked, bad = 0, []
+    for n in range(1, 31):
+        for word, u, secs, is_time in units:
+            for text, count in ((('%d%s' % (n, word)), n), ('%d%s半' % (n, word), n + 0.5), ('%d.5%s' % (n, word), n + 0.5)):
+                rs = recognize_datetime(text, 'zh-cn', reference=_dt.datetime(2016, 11, 7, 10, 30))
+                if not (len(rs) == 1 and rs[0].text == text and rs[0].type_name == 'datetimeV2.duration'):
+                    continue
+                n_checked += 1
+                v = rs[0].resolution['values'][0]
+                cnt = ('%d' % count) if count == int(count) else ('%s' % count)
+                want_tx = 'P' + ('T' if is_time else '') + cnt + u
+                want_val = '%d' % int(count * secs)
+                if v.get('timex') != want_tx or v.get('value') != want_val:
+                    bad.append((text, v.get('timex'), v.get('value'), want_tx, want_val))
+    if bad:
+        return {'state': 'counterexample', 'cex': {'text': bad[0][0]}, 'detail': '%d durations with a wrong TIMEX / value, first (text, timex, value, expected timex, expected value): %r' % (len(bad), bad[:4]), 'queries': n_checked}
+    return {'state': 'discharged', 'detail': '%d duration texts' % n_checked, 'queries': n_checked, 'sample': {'texts': n_checked}}
+
+
+def zh_durations_api__replay(slice_, cex):
+    r = zh_durations_api(slice_, 0)
+    return {'reproduced': r['state'] == 'counterexample', 'detail': r['detail']}
